@@ -430,7 +430,16 @@ def parse_body(text):
                 continue
             m = _DBG_RE.match(st)
             if m:
-                b.debug[m.group(1)] = m.group(2)
+                # a later `let` that shadows a parameter must not take the parameter's name away from it
+                prev = b.debug.get(m.group(1))
+                pm = re.fullmatch(r'_(\d+)', prev) if prev else None
+                if pm and 1 <= int(pm.group(1)) <= b.nparams:
+                    k_ = 2
+                    while '%s#%d' % (m.group(1), k_) in b.debug:
+                        k_ += 1
+                    b.debug['%s#%d' % (m.group(1), k_)] = m.group(2)
+                else:
+                    b.debug[m.group(1)] = m.group(2)
                 continue
             m = _BB_RE.match(st)
             if m:
